@@ -219,7 +219,20 @@ func xvOne(w *symex.World, results []*JobResult, r xvRun, nat map[string]NativeR
 			continue
 		}
 		engineLimit := len(ex.Incon) > 0
-		same := strings.Join(nfails, ",") == strings.Join(ifails, ",") && (nr.Uncaught != "") == ipanic
+		// frame-monitor failures seen only by the interpreter (transient writes) are not comparable
+		monitored := map[string]bool{}
+		for _, o := range ex.Observed {
+			if strings.HasPrefix(o, "MONITOR ") {
+				monitored[o[8:]] = true
+			}
+		}
+		var nf2 []string
+		for _, l := range nfails {
+			if !monitored[l] {
+				nf2 = append(nf2, l)
+			}
+		}
+		same := strings.Join(nf2, ",") == strings.Join(ifails, ",") && (nr.Uncaught != "") == ipanic
 		if same && !engineLimit {
 			out.agree++
 		} else if !engineLimit {
